@@ -49,6 +49,10 @@ pub struct K18 {
     /// receiver, and the gpsd daemon reports the receiver's real position (`rx`) before any traffic
     #[serde(default)]
     pub gpsd_cli_offset: Option<(f64, f64)>,
+    /// mobile receiver on the move: half way through the traffic phase the daemon starts to report
+    /// `rx` + this offset
+    #[serde(default)]
+    pub gpsd_move: Option<(f64, f64)>,
 }
 
 fn default_rx() -> (f64, f64) {
@@ -130,7 +134,7 @@ fn generate_two_lives(rng: &mut Rng) -> K18 {
         KEvent { at_us: 1_800_000, ev: key("F1") },
         KEvent { at_us: 2_000_000, ev: key("c:q") },
     ];
-    K18 { cols: 120, rows: 40, filter_time, locations: vec![("RX".to_string(), 0.0, 0.0)], flags: vec![], lines, events_a, events_b, bulk: 0, many: false, rx, gpsd_cli_offset: None }
+    K18 { cols: 120, rows: 40, filter_time, locations: vec![("RX".to_string(), 0.0, 0.0)], flags: vec![], lines, events_a, events_b, bulk: 0, many: false, rx, gpsd_cli_offset: None, gpsd_move: None }
 }
 
 pub fn generate(rng: &mut Rng, fault_free: bool) -> K18 {
@@ -394,7 +398,8 @@ pub fn generate(rng: &mut Rng, fault_free: bool) -> K18 {
     push(&mut events_b, &mut t, key("F1"), 250_000);
     push(&mut events_b, &mut t, key("c:q"), 0);
     let gpsd_cli_offset = if !fault_free && rng.chance(0.12) { Some(*rng.pick(&[(0.5, 0.0), (0.0, 1.0), (-0.7, 0.8), (1.0, -1.0), (0.0, -0.3), (0.01, 0.01)])) } else { None };
-    K18 { cols, rows, filter_time, locations, flags, lines, events_a, events_b, bulk, many: many || excursion, rx, gpsd_cli_offset }
+    let gpsd_move = if gpsd_cli_offset.is_some() && rng.chance(0.4) { Some(*rng.pick(&[(0.1, 0.12), (-0.08, 0.1), (0.05, -0.15), (-0.12, -0.06), (0.0, 0.15), (0.1, 0.0)])) } else { None };
+    K18 { cols, rows, filter_time, locations, flags, lines, events_a, events_b, bulk, many: many || excursion, rx, gpsd_cli_offset, gpsd_move }
 }
 
 const GPSD_LEAD_US: u64 = 300_000;
@@ -479,9 +484,14 @@ pub fn compile(sc: &K18) -> KChild {
             l(0, tpv(sc.rx.0, sc.rx.1), Some(sc.rx)),
         ];
         let t_end = events.last().map(|e| e.at_us).unwrap_or(0);
+        let t_move = GPSD_LEAD_US + end_a(sc) / 2;
         let mut t = 1_000_000;
         while t < t_end && lines.len() < 40 {
-            lines.push(l(t, tpv(sc.rx.0, sc.rx.1), Some(sc.rx)));
+            let at = match sc.gpsd_move {
+                Some((a, b)) if t >= t_move => (sc.rx.0 + a, sc.rx.1 + b),
+                _ => sc.rx,
+            };
+            lines.push(l(t, tpv(at.0, at.1), Some(at)));
             t += 1_000_000;
         }
         gpsd = Some(KGpsd { refuse: false, lines });
@@ -492,6 +502,8 @@ pub fn compile(sc: &K18) -> KChild {
 }
 
 struct RefSnap {
+    /// where the receiver was when this frame was drawn
+    rx: (f64, f64),
     table: Vec<Row>,
     len: usize,
     total_added: u32,
@@ -653,8 +665,12 @@ pub fn execute(sc: &K18) -> Outcome {
     let mut delivered_lines = 0usize;
     let mut dirty_a = false;
     let mut dirty_at_frame: BTreeMap<u64, bool> = BTreeMap::new();
+    // receiver position: the command line's, or what the gpsd daemon reported last (a fix handed
+    // over at an iteration boundary is in force from the next iteration on)
+    let mut cur_rx = sc.rx;
     for l in &p.log {
         match l {
+            LogEv::Gpsd { fix: Some(f), .. } => cur_rx = *f,
             LogEv::Rd { t, kind, total, segs, .. } if kind == "data" => {
                 if *segs > 1 {
                     out.inconclusive = true;
@@ -669,7 +685,7 @@ pub fn execute(sc: &K18) -> Outcome {
                             // "newly added" is read off the tracked set itself (a key that was not
                             // there before the frame), not off the tracker's own `Added` answer
                             let before: Vec<[u8; 3]> = tr.keys().map(|k| k.0).collect();
-                            let _ = tr.action(f, sc.rx, 500.0);
+                            let _ = tr.action(f, cur_rx, 500.0);
                             total_added += tr.keys().filter(|k| !before.contains(&k.0)).count() as u32;
                             most = most.max(tr.keys().count() as u32);
                         }
@@ -730,7 +746,7 @@ pub fn execute(sc: &K18) -> Outcome {
                         ac.insert(format!("{:02x}{:02x}{:02x}", key.0[0], key.0[1], key.0[2]), (st.callsign.clone(), p.latitude, p.longitude));
                     }
                 }
-                snaps.insert(*k, RefSnap { table: table_of(&tr), len: tr.keys().count(), total_added, most, ac });
+                snaps.insert(*k, RefSnap { rx: cur_rx, table: table_of(&tr), len: tr.keys().count(), total_added, most, ac });
                 toggle_at_frame.insert(*k, (toggles["l"], toggles["n"], toggles["i"]));
                 ev_count_at_frame.insert(*k, evs.len());
                 last_frame_k = Some(*k);
@@ -984,10 +1000,18 @@ fn check_map(sc: &K18, s: &Screen, rect: (usize, usize, usize, usize), r: &RefSn
     let cx = [ix + (iw - 1) / 2, ix + iw / 2];
     let cy = [iy + (ih - 1) / 2, iy + ih / 2];
     let mut pos: BTreeMap<String, (usize, usize, f64, f64)> = BTreeMap::new();
+    let moved = (r.rx.0 - sc.rx.0).abs() > 1e-9 || (r.rx.1 - sc.rx.1).abs() > 1e-9;
+    if moved {
+        out.probe("map_judged_after_the_receiver_moved");
+    }
     for (name, dlat, dlon) in &sc.locations {
         let found = find_label(s, rect, name);
+        // markers stay where they are; the receiver (the centre) may have moved away from `sc.rx`
+        let (dlat, dlon) = (&(sc.rx.0 + dlat - r.rx.0), &(sc.rx.1 + dlon - r.rx.1));
         if found.len() == 1 {
             pos.insert(name.clone(), (found[0].0, found[0].1, *dlat, *dlon));
+        } else if found.is_empty() && moved {
+            // may have left the canvas
         } else if found.is_empty() {
             out.violate("C18:map-location-marker-missing", format!("frame {} (t={}us): location marker {name} (offset {dlat},{dlon} deg from the receiver) is not on the map", s.k, s.vt_us));
             return;
@@ -1027,10 +1051,10 @@ fn check_map(sc: &K18, s: &Screen, rect: (usize, usize, usize, usize), r: &RefSn
             }
         }
         out.probe("aircraft_label_found");
-        pos.insert(format!("ac:{k}"), (found[0].0, found[0].1, lat - sc.rx.0, lon - sc.rx.1));
+        pos.insert(format!("ac:{k}"), (found[0].0, found[0].1, lat - r.rx.0, lon - r.rx.1));
     }
     // the receiver is at the centre
-    if let Some((x, y, _, _)) = pos.get("RX") {
+    if let (Some((x, y, _, _)), false) = (pos.get("RX"), moved) {
         if !cx.contains(x) || !cy.contains(y) {
             out.violate("C18:map-receiver-not-at-centre", format!("frame {} (t={}us): the marker at the receiver's coordinates is drawn at cell ({x},{y}), the canvas centre is ({:?},{:?})", s.k, s.vt_us, cx, cy));
             return;
@@ -1038,23 +1062,26 @@ fn check_map(sc: &K18, s: &Screen, rect: (usize, usize, usize, usize), r: &RefSn
         out.probe("receiver_marker_at_centre");
     }
     // directions are judged against where the receiver's own marker is drawn (the centre cell)
-    let centre = pos.get("RX").map(|p| (p.0 as i64, p.1 as i64)).unwrap_or((cx[0] as i64, cy[0] as i64));
+    let centre = pos.get("RX").filter(|_| !moved).map(|p| (p.0 as i64, p.1 as i64)).unwrap_or((cx[0] as i64, cy[0] as i64));
+    // offsets are more than one cell by construction; after the receiver moved they are whatever
+    // is left, so only offsets of at least three rows / columns of the coarsest canvas are judged
+    let (min_lat, min_lon) = if moved { (0.45, 0.3) } else { (0.15, 0.2) };
     for (name, (x, y, dlat, dlon)) in &pos {
         let (x, y) = (*x as i64, *y as i64);
         // quadrant relative to the centre (offsets are more than one cell by construction)
-        if *dlat > 0.15 && y >= centre.1 {
+        if *dlat > min_lat && y >= centre.1 {
             out.violate("C18:map-north-is-not-up", format!("frame {}: {name} lies {dlat} deg north of the receiver but is drawn in row {y}, the centre row is {}", s.k, centre.1));
             return;
         }
-        if *dlat < -0.15 && y <= centre.1 {
+        if *dlat < -min_lat && y <= centre.1 {
             out.violate("C18:map-south-is-not-down", format!("frame {}: {name} lies {} deg south of the receiver but is drawn in row {y}, the centre row is {}", s.k, -dlat, centre.1));
             return;
         }
-        if *dlon > 0.2 && x <= centre.0 {
+        if *dlon > min_lon && x <= centre.0 {
             out.violate("C18:map-east-is-not-right", format!("frame {}: {name} lies {dlon} deg east of the receiver but is drawn in column {x}, the centre column is {}", s.k, centre.0));
             return;
         }
-        if *dlon < -0.2 && x >= centre.0 {
+        if *dlon < -min_lon && x >= centre.0 {
             out.violate("C18:map-west-is-not-left", format!("frame {}: {name} lies {} deg west of the receiver but is drawn in column {x}, the centre column is {}", s.k, -dlon, centre.0));
             return;
         }
